@@ -846,3 +846,117 @@ def m_range_contains(c):
             c.ret(Int.const(0, 1, False), st=s3)
         except Infeasible:
             pass
+
+
+def _int_range_bounds(v):
+    """(first, last) of a concrete integer range value (Range / RangeInclusive struct or a modelled range iterator), else None"""
+    if isinstance(v, Iter) and v.ikind == "range" and isinstance(v.start, Int) and isinstance(v.end, Int) and v.start.is_const() and v.end.is_const():
+        return v.start.lo, v.end.lo - 1, v.start
+    if isinstance(v, Struct) and v.path.endswith("ops::Range") and len(v.fields) >= 2 and all(isinstance(x, Int) and x.is_const() for x in v.fields[:2]):
+        return v.fields[0].lo, v.fields[1].lo - 1, v.fields[0]
+    if isinstance(v, Struct) and v.path.endswith("ops::RangeInclusive") and len(v.fields) >= 2 and all(isinstance(x, Int) and x.is_const() for x in v.fields[:2]):
+        return v.fields[0].lo, v.fields[1].lo, v.fields[0]
+    return None
+
+
+@model("std::iter::Iterator::find")
+def m_find(c):
+    r, _ = c.arg(0)
+    it, loc = c.deref(r) if isinstance(r, Ref) else (r, None)
+    clo, _ = c.arg(1)
+    b = _int_range_bounds(it)
+    if b is None or not isinstance(clo, Closure) or b[1] - b[0] > 64:
+        # not a small concrete integer range: the predicate is still run once (for its own obligations), the result is unknown
+        c.ret(c.I.top_of(c.ret_ty(), c.st, ("ret", c.frame.uid, c.bb)))
+        return
+    first, last, proto = b
+    # step through the range: the predicate is evaluated for each value in order, on every state that has not found a match yet
+    pending = [c.st]
+    for i in range(first, last + 1):
+        nxt = []
+        for s in pending:
+            cell = new_tmp(c, s, Int.const(i, proto.bits, proto.signed), "find%d" % i)
+            res = c.I.call_closure(c, clo, [(Ref(cell, ()), None)], st=s)
+            if res is None:
+                c.ret(c.I.top_of(c.ret_ty(), s, ("ret", c.frame.uid, c.bb)), st=s)
+                continue
+            for (s2, rv, rloc, nf) in res:
+                c.I.finish_closure(s2, nf)
+                if isinstance(rv, Int) and rv.is_const():
+                    if rv.lo:
+                        c.ret(opt_some(Int.const(i, proto.bits, proto.signed)), st=s2)
+                    else:
+                        nxt.append(s2)
+                else:
+                    s3 = s2.copy()
+                    c.ret(opt_some(Int.const(i, proto.bits, proto.signed)), st=s3)
+                    nxt.append(s2)
+        pending = nxt
+        if not pending:
+            break
+    for s in pending:
+        c.ret(opt_none(), st=s)
+
+
+@model("std::ops::Fn::call", "std::ops::FnMut::call_mut", "std::ops::FnOnce::call_once")
+def m_fn_call(c):
+    """calling a closure value through the Fn* traits: the argument tuple is spread over the closure's parameters ("rust-call" ABI)"""
+    f, floc = c.arg(0)
+    for _ in range(3):
+        if isinstance(f, Ref) and f.cell is not None:
+            f, floc = c.deref(f)
+        else:
+            break
+    tup, tloc = c.arg(1)
+    if not isinstance(f, Closure) or not isinstance(tup, Struct):
+        k = ctor_of(c, f) if isinstance(f, FnItem) else None
+        if k is not None and isinstance(tup, Struct) and len(tup.fields) == 1:
+            c.ret(Enum(k[0], {k[1]: (tup.fields[0],)}))
+            return
+        return NotImplemented
+    args = []
+    for i, v in enumerate(tup.fields):
+        args.append((v, (tloc[0], tloc[1] + (i,)) if tloc is not None else None))
+    res = c.I.call_closure(c, f, args)
+    if res is None:
+        return NotImplemented
+    for (s2, rv, rloc, nf) in res:
+        lin = c.I.lin_of(s2, rv, rloc) if isinstance(rv, Int) else None
+        c.I.write_place(s2, c.frame, c.term["dest"], rv)
+        if lin is not None and not lin.is_const():
+            dloc = c.I.resolve(s2, c.frame, c.term["dest"])
+            if dloc is not None:
+                try:
+                    s2.cons.add_eq(LinForm.var(dloc) - lin)
+                except Exception:
+                    pass
+        c.I.finish_closure(s2, nf)
+        c.results.append(s2)
+
+
+@model("core::num::leading_zeros")
+def m_leading_zeros(c):
+    """leading_zeros of an unsigned value: bits - 1 - ilog2(x) for x > 0, bits for 0; one successor state per bit-length class (like ilog2)"""
+    x, xl = c.arg_int(0)
+    if x is None or x.signed:
+        c.ret_top()
+        return
+    bits = x.bits
+    classes = []
+    if x.lo <= 0:
+        classes.append((None, 0, 0))
+    lo = max(x.lo, 1)
+    if x.hi >= lo:
+        for k in range(lo.bit_length() - 1, x.hi.bit_length()):
+            classes.append((k, max(lo, 1 << k), min(x.hi, (1 << (k + 1)) - 1)))
+    for n, (k, a, b) in enumerate(classes):
+        s = c.st if n == len(classes) - 1 else c.fork()
+        try:
+            if len(classes) > 1:
+                if xl is not None and not xl.is_const():
+                    s.add_le(xl - b)
+                    s.add_le(LinForm.constant(a) - xl)
+                s.tag = s.tag + (("ilog2", c.frame.uid, c.bb, -1 if k is None else k),)
+            c.ret(Int.const(bits if k is None else bits - 1 - k, 32, False), st=s)
+        except Infeasible:
+            pass
